@@ -196,7 +196,10 @@ func check(kind, name, src string) (res result) {
 				viol = append(viol, fmt.Sprintf("def:%s@%s->%s", id.Name, posStr(fset, id.Pos()), posStr(fset, d.Pos())))
 			}
 			if isUse {
-				viol = append(viol, fmt.Sprintf("defanduse:%s@%s", id.Name, posStr(fset, id.Pos())))
+				// an embedded field is, as documented, in both maps (Defs: the field, Uses: the type name)
+				if fv, ok := d.(*types.Var); !(ok && fv.Embedded()) {
+					viol = append(viol, fmt.Sprintf("defanduse:%s@%s", id.Name, posStr(fset, id.Pos())))
+				}
 			}
 		case isUse:
 			switch {
